@@ -37,6 +37,19 @@ type cmpEnv struct {
 	rangeOf types.Object              // the `so` receiver being ranged
 	funcs   map[*types.Func]*ast.FuncDecl // same-package functions, for helper calls
 	depth   int
+	roots   map[types.Object]types.Object // helper parameter -> the comparator's own match parameter it was given
+	bools   map[types.Object]bool         // helper boolean parameter -> value
+}
+
+func (e *cmpEnv) rootOf(o types.Object) types.Object {
+	for hop := 0; hop < 4; hop++ {
+		r, ok := e.roots[o]
+		if !ok {
+			break
+		}
+		o = r
+	}
+	return o
 }
 
 type ctrl int
@@ -72,7 +85,7 @@ func (e *cmpEnv) side(x ast.Expr) (root types.Object, kind string, key int, ok b
 		if !okK {
 			return nil, "", 0, false
 		}
-		return e.info.ObjectOf(baseIdent(sel.X)), "Sort", k, true
+		return e.rootOf(e.info.ObjectOf(baseIdent(sel.X))), "Sort", k, true
 	}
 	if sel, isSel := x.(*ast.SelectorExpr); isSel {
 		base := baseIdent(sel.X)
@@ -81,7 +94,7 @@ func (e *cmpEnv) side(x ast.Expr) (root types.Object, kind string, key int, ok b
 		}
 		switch sel.Sel.Name {
 		case "Score", "HitNumber":
-			return e.info.ObjectOf(base), sel.Sel.Name, 0, true
+			return e.rootOf(e.info.ObjectOf(base)), sel.Sel.Name, 0, true
 		}
 	}
 	return nil, "", 0, false
@@ -123,6 +136,7 @@ func (e *cmpEnv) call(c *ast.CallExpr) (int, bool) {
 	k := 0
 	savedInts, savedAlias := map[types.Object]int{}, map[types.Object]ast.Expr{}
 	var bound []types.Object
+	var boundRoots []types.Object
 	for _, fl := range fd.Type.Params.List {
 		for _, nm := range fl.Names {
 			if k >= len(c.Args) {
@@ -143,7 +157,18 @@ func (e *cmpEnv) call(c *ast.CallExpr) (int, bool) {
 			}
 			delete(e.ints, po)
 			delete(e.alias, po)
-			if v, ok := e.intOf(arg); ok {
+			if ao := e.rootOf(objOf(e.info, arg)); ao != nil && (ao == e.i || ao == e.j) {
+				if e.roots == nil {
+					e.roots = map[types.Object]types.Object{}
+				}
+				e.roots[po] = ao
+				boundRoots = append(boundRoots, po)
+			} else if b, isB := po.Type().Underlying().(*types.Basic); isB && b.Kind() == types.Bool {
+				if e.bools == nil {
+					e.bools = map[types.Object]bool{}
+				}
+				e.bools[po] = e.boolOf(arg)
+			} else if v, ok := e.intOf(arg); ok {
 				e.ints[po] = v
 			} else if _, _, _, ok := e.side(arg); ok {
 				// resolve through the caller's aliases now, so that the binding does not depend on the callee's names
@@ -168,6 +193,9 @@ func (e *cmpEnv) call(c *ast.CallExpr) (int, bool) {
 	e.depth++
 	ctl, v := e.exec(fd.Body.List)
 	e.depth--
+	for _, po := range boundRoots {
+		delete(e.roots, po)
+	}
 	for _, po := range bound {
 		delete(e.ints, po)
 		delete(e.alias, po)
@@ -205,6 +233,10 @@ func applyRel(op token.Token, r rel) bool {
 func (e *cmpEnv) boolOf(x ast.Expr) bool {
 	x = ast.Unparen(x)
 	switch y := x.(type) {
+	case *ast.Ident:
+		if v, ok := e.bools[e.info.ObjectOf(y)]; ok {
+			return v
+		}
 	case *ast.UnaryExpr:
 		if y.Op == token.NOT {
 			return !e.boolOf(y.X)
